@@ -50,19 +50,21 @@ def _moved_from(ctx, site, stale):
         if _kind_of_key(k) != kind:
             continue
         f = _outer(k.split("|", 1)[0])
-        if f == g or (callers and callers <= {f}) or (callers and all(_callers(ctx).get(c_, set()) <= {f} and c_ != g for c_ in callers)):
+        if f == g or (callers and callers <= {f}) or (callers and all(_callers(ctx).get(c_, set()) and _callers(ctx).get(c_, set()) <= {f} and c_ != g for c_ in callers)):
             return k
     return None
 
 
 def run_inventory(ctx, rep, rule, entries, triage, only=None):
     sites, reach = panics.inventory(ctx, entries)
+    matched = set()
     if only is not None:
+        # a justification that still matches its construct somewhere in the whole inventory is not free to be re-bound to a site of the part
+        matched = {s_.key for s_ in sites if s_.key in triage}
         sites = [s_ for s_ in sites if only(s_)]
     seen_gen = {}
     n_auto = n_tri = 0
     pending = []
-    matched = set()
     for s in sorted(sites, key=lambda s: s.key):
         if s.generated:
             seen_gen.setdefault(s.key, []).append(s)
